@@ -21,7 +21,7 @@ func init() {
 		Rule: "corpus of 22 short well-formed gzip/zlib containers (every header flag combination incl. FHCRC, stored/fixed/dynamic/Huffman-only payloads, empty payload, two members, dictionaries) and 2 of ~15 KB; for each short one EVERY single-bit flip, EVERY byte position x 16 (quick) / all 255 (thorough) other values, EVERY truncation point, every 2-bit flip inside the trailer, and (thorough) every pair of bit flips at most 16 bits apart anywhere; for the long ones flips and substitutions at a ladder of positions; x Read policy {1 MiB, 4096, 7, 1}; " +
 			"oracle: io.EOF only if the bytes handed out for each member match the CRC-32 and length (Adler-32) stored in the trailer of the MUTATED input, located by the harness's own container parser and reference inflater; otherwise the error is a checksum, header, corrupt-input or unexpected-EOF error; whatever is handed out is a prefix of what the reference decodes; a cut inside a member ends in io.ErrUnexpectedEOF; non-trivial = the mutation changed the input; distinct = distinct (container, mutation, policy)",
 		Assumptions: []string{"the harness's gzip/zlib framing parser and the reference inflater locate the trailer"},
-		Quick:       TierSpec{MaxDev: -1, Shards: 4, ShardDepth: 3, BudgetS: 150},
+		Quick:       TierSpec{MaxDev: -1, Shards: 4, ShardDepth: 3, BudgetS: 600},
 		Thorough:    TierSpec{MaxDev: -1, Shards: 8, ShardDepth: 3, BudgetS: 1700},
 		Harness:     c07Harness,
 	})
